@@ -285,7 +285,7 @@ def run_case(case, ctx):
     b = max(loy, min(hiy, b))
     x = Fxp(a, sx, w, nf, raw=True)
     y = Fxp(b, sy, w, rng.choice([0, w // 2]), raw=True)
-    if i % 3 == 0:
+    if (i // 36) % 3 == 0:      # (independent of the width digit i % 9 and the signedness digits)
         x = G.historied(Fxp, x, rng)[0]
         y = G.historied(Fxp, y, rng)[0]
     _try(lambda: ~x)
